@@ -153,6 +153,8 @@ impl<'a> ExpressionEvaluator<'a> {
                         Some(holds)
                     }
                 };
+                Self::check_comparable(&inner[0], &low[0])?;
+                Self::check_comparable(&inner[0], &high[0])?;
                 let ge = cmp(&inner[0], &low[0], inner[0] >= low[0]);
                 let le = cmp(&inner[0], &high[0], inner[0] <= high[0]);
                 Ok(vec![match (ge, le) {
@@ -183,6 +185,9 @@ impl<'a> ExpressionEvaluator<'a> {
                 };
                 // Three-valued IN: NULL on the left is unknown; a match is TRUE; no match is unknown if the
                 // list holds a NULL, FALSE otherwise. NOT IN negates TRUE/FALSE and keeps unknown.
+                for item in &set {
+                    Self::check_comparable(&evaluated[0], item)?;
+                }
                 if matches!(evaluated[0], DataType::Null) {
                     return Ok(vec![DataType::Null]);
                 }
@@ -307,6 +312,7 @@ impl<'a> ExpressionEvaluator<'a> {
                     let w = self.evaluate_as_single_value(when)?;
                     let hit = match &operand {
                         Some(o) => {
+                            Self::check_comparable(o, &w)?;
                             !matches!(o, DataType::Null) && !matches!(w, DataType::Null) && *o == w
                         }
                         None => match w {
@@ -443,6 +449,23 @@ impl<'a> ExpressionEvaluator<'a> {
         Ok(DataType::Blob(Blob::from(concatenated.as_str())))
     }
 
+    /// Values can be compared within one category only: numbers with numbers, text with text, booleans with
+    /// booleans (NULL compares with everything, giving unknown). `1 = 'x'` is a type error, not FALSE.
+    fn check_comparable(a: &DataType, b: &DataType) -> EvaluationResult<()> {
+        let same_category = match (a, b) {
+            (DataType::Null, _) | (_, DataType::Null) => true,
+            (DataType::Blob(_), DataType::Blob(_)) | (DataType::Bool(_), DataType::Bool(_)) => true,
+            (a, b) => a.is_numeric() && b.is_numeric(),
+        };
+        if same_category {
+            Ok(())
+        } else {
+            Err(EvaluationError::TypeError(
+                TypeSystemError::UnexpectedDataType(b.kind()),
+            ))
+        }
+    }
+
     /// Integer division and remainder by zero are errors (the primitive operators would panic);
     /// floating point division keeps its IEEE result.
     fn check_integer_divisor(left: &DataType, right: &DataType) -> EvaluationResult<()> {
@@ -534,6 +557,22 @@ impl<'a> ExpressionEvaluator<'a> {
                     }
                     _ => return Ok(vec![DataType::Null]),
                 }
+            }
+
+            if matches!(
+                bin_op,
+                BinaryOperator::Eq
+                    | BinaryOperator::Neq
+                    | BinaryOperator::Lt
+                    | BinaryOperator::Le
+                    | BinaryOperator::Gt
+                    | BinaryOperator::Ge
+                    | BinaryOperator::In
+                    | BinaryOperator::NotIn
+                    | BinaryOperator::Is
+                    | BinaryOperator::IsNot
+            ) {
+                Self::check_comparable(&left[0], &right[0])?;
             }
 
             match bin_op {
